@@ -56,7 +56,7 @@ def write_genomes(directory, contig_lists, names, gz=None):
 	for i, (cs, nm) in enumerate(zip(contig_lists, names)):
 		p = os.path.join(directory, nm)
 		os.makedirs(os.path.dirname(p), exist_ok=True)
-		Wd.write_fasta(p, cs, gz=bool(gz and gz[i]), name=f's{i}')
+		Wd.write_fasta(p, cs, gz=(gz[i] if gz else False), name=f's{i}')
 		paths.append(p)
 	return paths
 
